@@ -268,17 +268,17 @@ func judge(spans []Span, pr prodResult, mustRunClean bool) (kind, what string) {
 
 // Case identifies one program for replay; it is regenerated from the plan.
 type Case struct {
-	Part  string `json:"part"` // "static" | "recursion"
-	Chain string `json:"chain"`
-	Plant string `json:"plant,omitempty"` // "" = unmodified base
-	Stmt  bool   `json:"stmt,omitempty"`
-	Block int    `json:"block,omitempty"`
-	Index int    `json:"index,omitempty"`
-	Slot  int    `json:"slot,omitempty"`
-	Lits  bool   `json:"lits,omitempty"`
-	Opts  int    `json:"opts"`
-	Text  string `json:"text,omitempty"`
-	Graph *Graph `json:"graph,omitempty"`
+	Part  string     `json:"part"` // "static" | "recursion"
+	Chain string     `json:"chain"`
+	Plant string     `json:"plant,omitempty"` // "" = unmodified base
+	Stmt  bool       `json:"stmt,omitempty"`
+	Block int        `json:"block,omitempty"`
+	Index int        `json:"index,omitempty"`
+	Slot  int        `json:"slot,omitempty"`
+	Lits  bool       `json:"lits,omitempty"`
+	Opts  int        `json:"opts"`
+	Text  string     `json:"text,omitempty"`
+	Graph *Graph     `json:"graph,omitempty"`
 	Entry *entryCase `json:"entry_case,omitempty"`
 }
 
